@@ -257,7 +257,7 @@ func kvRun(k int, keys []int64, stable bool) string {
 
 def int_lists(rng, vol):
     L = [[], [1], [2, 1], [1, 2], [3, 1, 2], [1, 1, 1], [5, 4, 3, 2, 1], [-(1 << 31), (1 << 31) - 1, 0, -1, 1], [0] * 13]
-    sizes = [2, 3, 5, 8, 11, 12, 13, 20, 33, 49, 50, 51, 100, 257, 1000] + ([3000, 10000] if vol["rand"] > 20 else [])
+    sizes = [2, 3, 5, 8, 11, 12, 13, 19, 20, 21, 33, 39, 40, 41, 49, 50, 51, 79, 80, 81, 100, 161, 257, 1000] + ([3000, 10000] if vol["rand"] > 20 else [])
     for n in sizes:
         L.append([rng.randrange(-1000, 1000) for _ in range(n)])
         L.append([rng.randrange(0, 4) for _ in range(n)])
@@ -644,12 +644,19 @@ func bufferRun(k int, ops []int64, data string) string {
 		b = bytes.NewBuffer([]byte(data))
 	}
 	s := ""
+	afterGrow := false
 	for i := 0; i+1 < len(ops); i += 2 {
 		op, v := int(ops[i]), int(ops[i+1])
 		lo := 0
 		if len(data) > 0 {
 			lo = v % len(data)
 		}
+		// UnreadByte/UnreadRune right after Grow depend on whether Grow had to move the data, i.e. on the CAPACITY the
+		// runtime gave the underlying slice (Go rounds to size classes) — not a library property: skipped
+		if (op == 6 || op == 7) && afterGrow {
+			continue
+		}
+		afterGrow = op == 14
 		switch op {
 		case 0:
 			n, e := b.WriteString(data[lo:])
@@ -834,6 +841,228 @@ def size_sections(rng, vol):
     return out
 
 
+ADV_PRE = '''
+// McIlroy's "antiquicksort" adversary (A Killer Adversary for Quicksort, 1999; the one Go's sort_test.go TestAdversary
+// uses): values are "gas" until a comparison forces them to freeze, which drives any quicksort into its worst case and
+// so into its depth-limit fallback (heap sort on an inner partition).  The adversary adapts to the implementation, so
+// only ORACLE results are printed (nothing that depends on the algorithm: no comparison counts, no permutation).
+type advIntsT []int
+type advT struct {
+	nsolid    int
+	candidate int
+	gas       int
+	data      advIntsT
+	orig      advIntsT
+}
+
+func (d *advT) Len() int { return len(d.data) }
+func (d *advT) Less(i, j int) bool {
+	if d.data[i] == d.gas && d.data[j] == d.gas {
+		if i == d.candidate {
+			d.data[i] = d.nsolid
+			d.nsolid++
+		} else {
+			d.data[j] = d.nsolid
+			d.nsolid++
+		}
+	}
+	if d.data[i] == d.gas {
+		d.candidate = i
+	} else if d.data[j] == d.gas {
+		d.candidate = j
+	}
+	return d.data[i] < d.data[j]
+}
+func (d *advT) Swap(i, j int) {
+	d.data[i], d.data[j] = d.data[j], d.data[i]
+	d.orig[i], d.orig[j] = d.orig[j], d.orig[i]
+}
+
+type advKV struct {
+	k int
+	v int
+}
+type advKVs []advKV
+type advByKey struct {
+	a advKVs
+}
+
+func (p *advByKey) Len() int           { return len(p.a) }
+func (p *advByKey) Less(i, j int) bool { return p.a[i].k < p.a[j].k }
+func (p *advByKey) Swap(i, j int)      { p.a[i], p.a[j] = p.a[j], p.a[i] }
+
+func advPad(v int) string {
+	s := itoa64(int64(v))
+	for len(s) < 7 {
+		s = "0" + s
+	}
+	return s
+}
+
+// advRun: "misplaced after Sort(adversary), misplaced after Ints(killer), IntsAreSorted, misplaced after Float64s,
+// misplaced after Strings, misplaced after Sort(byKey), misplaced after Stable(byKey), misplaced after Sort(Reverse)"
+// — every count must be 0 (the result is the sorted permutation 0..n-1 of the input) under any correct sort.
+func advRun(k int, n int) string {
+	adv := &advT{gas: n - 1}
+	adv.data = make([]int, n)
+	adv.orig = make([]int, n)
+	for i := 0; i < n; i++ {
+		adv.data[i] = adv.gas
+		adv.orig[i] = i
+	}
+	sort.Sort(adv)
+	bad1 := 0
+	for i := 0; i < n; i++ {
+		if adv.data[i] != i {
+			bad1++
+		}
+	}
+	// the concrete permutation the adversary built: killer[original index] = final value
+	killer := make([]int, n)
+	for i := 0; i < n; i++ {
+		killer[adv.orig[i]] = adv.data[i]
+	}
+	a := make([]int, n)
+	f := make([]float64, n)
+	st := make([]string, n)
+	kv1 := &advByKey{}
+	kv2 := &advByKey{}
+	kv3 := &advByKey{}
+	for i := 0; i < n; i++ {
+		a[i] = killer[i]
+		f[i] = float64(killer[i]) / 2
+		st[i] = advPad(killer[i])
+		kv1.a = append(kv1.a, advKV{killer[i], i})
+		kv2.a = append(kv2.a, advKV{killer[i] / 3, i})
+		kv3.a = append(kv3.a, advKV{killer[i], i})
+	}
+	sort.Ints(a)
+	sort.Float64s(f)
+	sort.Strings(st)
+	sort.Sort(kv1)
+	sort.Stable(kv2)
+	sort.Sort(sort.Reverse(kv3))
+	b2, b3, b4, b5, b6, b7 := 0, 0, 0, 0, 0, 0
+	for i := 0; i < n; i++ {
+		if a[i] != i {
+			b2++
+		}
+		if f[i] != float64(i)/2 {
+			b3++
+		}
+		if st[i] != advPad(i) {
+			b4++
+		}
+		if kv1.a[i].k != i {
+			b5++
+		}
+		if i > 0 && (kv2.a[i-1].k > kv2.a[i].k || (kv2.a[i-1].k == kv2.a[i].k && kv2.a[i-1].v > kv2.a[i].v)) {
+			b6++
+		}
+		if kv3.a[i].k != n-1-i {
+			b7++
+		}
+	}
+	ok := "f"
+	if sort.IntsAreSorted(a) && sort.IsSorted(kv1) {
+		ok = "t"
+	}
+	return itoa64(int64(bad1)) + "," + itoa64(int64(b2)) + "," + ok + "," + itoa64(int64(b3)) + "," + itoa64(int64(b4)) + "," + itoa64(int64(b5)) + "," + itoa64(int64(b6)) + "," + itoa64(int64(b7))
+}
+
+// advPrefix: the same killer permutation embedded at an offset inside a longer slice (prefix of small values, suffix of
+// large ones), so that the depth-limit fallback is reached on a partition that does not start at index 0
+func advPrefix(k int, n int, off int) string {
+	adv := &advT{gas: n - 1}
+	adv.data = make([]int, n)
+	adv.orig = make([]int, n)
+	for i := 0; i < n; i++ {
+		adv.data[i] = adv.gas
+		adv.orig[i] = i
+	}
+	sort.Sort(adv)
+	m := n + 2*off
+	a := make([]int, m)
+	for i := 0; i < off; i++ {
+		a[i] = -1 - (i*7919)%off
+		a[m-1-i] = n + (i*104729)%off
+	}
+	for i := 0; i < n; i++ {
+		a[off+adv.orig[i]] = adv.data[i]
+	}
+	sort.Ints(a)
+	bad := 0
+	for i := 1; i < m; i++ {
+		if a[i-1] > a[i] {
+			bad++
+		}
+	}
+	for i := 0; i < n; i++ {
+		if a[off+i] != i {
+			bad++
+		}
+	}
+	return itoa64(int64(bad))
+}
+'''
+
+
+def adversary_sections(rng, vol):
+    thorough = vol["rand"] > 20
+    ns = [2, 13, 100, 1000, 3000] + ([10000, 30000] if thorough else [])
+    R = lambda e: (e, "r")
+    return [sec("sort.adversary", "sort", ["i64"], "r0 := advRun(0, int($0))", [R("r0")], [(n,) for n in ns], pre=ADV_PRE),
+            sec("sort.adversary-offset", "sort", ["i64", "i64"], "r0 := advPrefix(0, int($0), int($1))", [R("r0")],
+                [(n, off) for n in (1000, 3000) for off in (1, 50, 997)], pre=ADV_PRE)]
+
+
+HEX_FRACS = ["", "0", "4", "8", "c", "1", "f", "7f", "80", "81", "8000000000001", "7ffffffffffff", "67c38bf0f3a52", "fffffffffffff", "0000000000001",
+             "fffffffffffff8", "ffffffffffffe8", "00000000000008", "000000000000080000001", "7fffffffffffffffffff", "80000000000000000000",
+             "ffffffffffffffffffff", "fffffe", "fffffe8", "fffffe80001", "0000010000008", "aaaaaaaaaaaaaaaaaaaa", "123456789abcdef01234"]
+
+
+def hexfloat_sections(rng, vol):
+    """hexadecimal floating-point literals: 1..21 mantissa digits x every binary exponent around the boundaries of both
+    widths (smallest subnormal, normal/subnormal limit, overflow), with discarded bits below / at / above the rounding
+    midpoint — the denormalisation and round-to-even paths of atofHex; and the 'x' / 'X' formats of FormatFloat."""
+    thorough = vol["rand"] > 20
+    exps = list(range(-1160, -1068)) + list(range(-1030, -1014)) + list(range(-240, -142)) + list(range(-132, -120)) + list(range(118, 132)) + list(range(1016, 1028))
+    strs = []
+    for fi, frac in enumerate(HEX_FRACS):
+        for e in exps:
+            if not thorough and (e + fi) % 5 and frac not in ("4", "c", "67c38bf0f3a52"):
+                continue
+            strs.append("0x1%sp%d" % ("." + frac if frac else "", e))
+    for head in ("0x.8", "0x.08", "0x3", "0xf.f", "0X1F", "0x1fffffffffffff", "0x1fffffffffffff8", "0x20000000000001", "0x1ffffffffffffff0001", "-0x1.4", "+0x1.c", "0x0.0000000000001",
+                 "0x00000000000000000000001.8", "0x1_0.8", "0x10000000000000000000000"):
+        for e in exps[::(3 if thorough else 9)]:
+            strs.append("%s%s%d" % (head, "P" if head.startswith("0X") else "p", e))
+    strs += ["0x1.4p-1075", "0x1.4p-150", "0x1.67c38bf0f3a52p-1029", "0x1p-1075", "0x1.0000000000001p-1075", "0x1p-150", "0x1.000002p-150", "0x1.fffffffffffffp1023", "0x1.fffffffffffff8p1023",
+             "0x1.fffffffffffff7p1023", "0x1.fffffep127", "0x1.ffffffp127", "0x1.fffffefp127", "0x1p", "0x1p+", "0x1.p1", "0x.p1", "0xp1", "0x1p1p1", "0x1.8", "0x1e1", "0x1p99999999999", "0x1p-99999999999",
+             "0x0p99999999999", "0x1.8p0x1", "0x_1p0", "0x1p_1", "0x1.8_8p0"]
+    seen, calls = set(), []
+    for st in strs:
+        if st not in seen:
+            seen.add(st)
+            calls += [(st.encode(), 64), (st.encode(), 32)]
+    out = [sec("strconv.ParseFloat.hex", "strconv", ["str", "i64"], "r0, r1 := strconv.ParseFloat($0, int($1))", [("math.Float64bits(r0)", "f"), E("r1")], calls)]
+    # FormatFloat 'x' / 'X' at the boundaries
+    vals = [0, 1, 2, 3, 0x000fffffffffffff, 0x0010000000000000, 0x0010000000000001, 0x000ffffffffffffe, 0x0008000000000000, 0x0000000000000400, 0x7fefffffffffffff, 0x7fe0000000000000,
+            0x3ff0000000000000, 0x3ff8000000000000, 0x3ff0000000000001, 0x3fffffffffffffff, 0x3ff7ffffffffffff, 0x3ff8000000000001, 0x36a0000000000000, 0x3690000000000000, 0x36a8000000000000,
+            0x380fffffe0000000, 0x3810000000000000, 0x47efffffe0000000, 0x47efffffefffffff, 0x47effffff0000000, 0x7ff0000000000000, 0x7ff8000000000001, 0x4024000000000000, 0x3fb999999999999a]
+    vals += [rng.getrandbits(64) for _ in range(40 if thorough else 10)]
+    fcalls = []
+    for v in vals:
+        for sign in (0, 1 << 63):
+            for fmt in ("x", "X"):
+                for prec in (-1, 0, 1, 2, 5, 12, 13, 14, 20):
+                    for bs in (64, 32):
+                        if thorough or prec in (-1, 0, 1, 13) or (v + prec) % 3 == 0:
+                            fcalls.append((v | sign, ord(fmt), prec, bs))
+    out.append(sec("strconv.FormatFloat.hex", "strconv", ["f64", "u64", "i64", "i64"], "r0 := strconv.FormatFloat($0, $1, int($2), int($3))", [S("hx(r0)")], fcalls, casts=[None, "byte", None, None]))
+    return out
+
+
 def all_scenarios(rng, vol):
     return (base64_sections(rng, vol) + base32_sections(rng, vol) + hex_sections(rng, vol) + utf8_sections(rng, vol) + binary_sections(rng, vol) +
-            hash_sections(rng, vol) + sort_sections(rng, vol) + container_sections(rng, vol) + textio_sections(rng, vol) + size_sections(rng, vol))
+            hash_sections(rng, vol) + sort_sections(rng, vol) + container_sections(rng, vol) + textio_sections(rng, vol) + size_sections(rng, vol) + adversary_sections(rng, vol) + hexfloat_sections(rng, vol))
